@@ -118,6 +118,7 @@ class Drillhole(Points):
                 tuple(value), dtype=[("x", float), ("y", float), ("z", float)]
             )
             self._collar = value
+            self._locations = None
             self.workspace.update_attribute(self, "attributes")
 
         self._locations = None
@@ -280,6 +281,7 @@ class Drillhole(Points):
     def surveys(self, value):
         if value is not None:
             self._surveys = self.format_survey_values(value)
+            self._locations = None
             self.workspace.update_attribute(self, "surveys")
             last_station = float(self._surveys["Depth"][-1])
             if self._end_of_hole is None or self._end_of_hole < last_station:
